@@ -217,10 +217,8 @@ func decLine(t int, src []byte, full bool) string {
 	m := newMsg(t)
 	n, err := m.Decode(src)
 	if err != nil {
-		if n < 0 || n > len(src) {
-			return fmt.Sprintf("err! n=%d", n)
-		}
-		return "err"
+		// the byte count that comes with the error (the oracle checks 0 <= n <= len(src))
+		return fmt.Sprintf("err n=%d", n)
 	}
 	fs, views := fieldsOf(m)
 	lim := n
